@@ -461,3 +461,47 @@ def deep_layer(ctx, bk, depths=(4, 6, 8)):
     terms = deep_terms(bk.cap, depths)
     ctx.pmap(_deep_unit, [(bk.name, terms[i::48]) for i in range(48) if terms[i::48]])
     return len(terms)
+
+
+# ---------------------------------------------------------------- boolean operands (comparisons of comparisons, bare boolean fields)
+def boolean_operand_terms(cap):
+    """eq / ne between two boolean-valued lookups (comparisons, boolean functions, null tests, in-tests, the boolean field, boolean
+    literals) - every ordered pair - alone, negated and next to another clause; plus the bare boolean field as a predicate.
+    and/or/not as an OPERAND of a comparison is left out: the ORM backends document that they refuse it."""
+    n, m, s, b = typed.F("n"), typed.F("m"), typed.F("s"), typed.F("b")
+    look = [
+        T.binop("Gt", n, T.Int(0)), T.binop("Eq", T.binop("Add", n, T.Int(1)), T.Int(2)), T.binop("Eq", s, T.Str("a")),
+        T.call("contains", s, T.Str("a")), T.binop("Eq", n, T.NULL), T.binop("NotEq", s, T.NULL), T.binop("In", n, T.lst(T.Int(0), T.Int(1))),
+        T.binop("Eq", T.binop("Sub", T.call("length", s), T.Int(1)), T.Int(0)), T.binop("LtE", n, m), b, T.Bool(True), T.Bool(False),
+    ]
+    if cap.get("concat", True):
+        look.append(T.binop("Eq", T.call("concat", s, T.Str("x")), T.Str("ax")))
+    if cap.get("indexof", True):
+        look.append(T.binop("Eq", T.call("indexof", s, T.Str("a")), T.Int(0)))
+    out = []
+    for op in ("Eq", "NotEq"):
+        for l1 in look:
+            for l2 in look:
+                if l1[0] == "Boolean" and l2[0] == "Boolean":
+                    continue
+                t = T.binop(op, l1, l2)
+                out += [t, T.unop("Not", t), T.binop("Or", t, T.binop("Eq", m, T.Int(3)))]
+    if cap.get("bare_bool_predicate", True):
+        out += [b, T.unop("Not", b), T.binop("And", b, T.binop("Eq", n, T.Int(1))), T.binop("Or", T.unop("Not", b), T.binop("Eq", s, T.Str("a"))),
+                T.unop("Not", T.binop("And", b, T.unop("Not", b))), T.binop("And", T.unop("Not", b), T.binop("NotEq", n, T.NULL))]
+    if not cap.get("bare_bool_in_logic", True):
+        # Django documents that a bare field is not an operand of and/or (TypeException); under `not` and alone it is a predicate
+        out = [t for t in out if not any(st[0] == "BoolOp" and (st[2] == b or st[3] == b) for st in T.subterms(t))]
+    seen, uniq = set(), []
+    for t in out:
+        if t not in seen and len(colkey(typed.fields_of(t))) <= 3:
+            seen.add(t)
+            uniq.append(t)
+    return uniq
+
+
+def boolean_operand_layer(ctx, bk):
+    _BK[bk.name] = bk
+    terms = boolean_operand_terms(bk.cap)
+    ctx.pmap(_deep_unit, [(bk.name, terms[i::48]) for i in range(48) if terms[i::48]])
+    return len(terms)
